@@ -203,7 +203,8 @@ class ThreadSim:
         """Lines of the frame's code that WRITE module-level state or read a module-level name this function also rebinds: a
         STORE_GLOBAL / DELETE_GLOBAL, a LOAD_GLOBAL of a name rebound in this function (check-then-act on a memo), or a line that
         loads a module-level mutable container (dict, list, set, bytearray) and stores into it / calls a mutating method on it,
-        or a line that touches a module-level byte buffer at all.
+        a line that touches a module-level byte buffer at all, or a line that reads a module-level container which the same function
+        mutates elsewhere (the membership test before the subscript, the length check before the clear).
         Plain reads of module-level registries are not included (they are everywhere and never race on their own)."""
         code = frame.f_code
         got = self._shared_cache.get(code)
@@ -221,10 +222,18 @@ class ThreadSim:
                     cur = i.starts_line
                 per_line.setdefault(cur, []).append(i)
             lines: t.Set[int] = set()
+            # module-level containers this very function mutates somewhere: its READS of them are check-then-act windows too
+            mutated: t.Set[str] = set()
+            for ln, group in per_line.items():
+                ops = {i.opname for i in group}
+                loads = [i.argval for i in group if i.opname == "LOAD_GLOBAL" and isinstance(g.get(i.argval), (dict, list, set, bytearray))]
+                attrs = {i.argval for i in group if i.opname in ("LOAD_ATTR", "LOAD_METHOD")}
+                if loads and (ops & {"STORE_SUBSCR", "DELETE_SUBSCR", "STORE_SLICE"} or attrs & MUTATORS):
+                    mutated.update(loads)
             for ln, group in per_line.items():
                 ops = {i.opname for i in group}
                 loads = [i.argval for i in group if i.opname == "LOAD_GLOBAL"]
-                if ops & {"STORE_GLOBAL", "DELETE_GLOBAL"} or any(n in rebound for n in loads):
+                if ops & {"STORE_GLOBAL", "DELETE_GLOBAL"} or any(n in rebound for n in loads) or any(n in mutated for n in loads):
                     lines.add(ln)
                 elif any(isinstance(g.get(n), (bytearray, memoryview)) for n in loads):
                     # a module-level byte buffer is a scratch area whatever is done with it on this line (filled through a third
